@@ -19,7 +19,9 @@ namespace Entrait.C14
 open Entrait
 
 theorem macroHead_implParams (bv : Bool) (ps : List GParam) : macroHeadOk (implParams .generic bv ps) = true := by
-  cases bv <;> simp [macroHeadOk, implParams, implTParam, macroBoundOk, entraitT]
+  unfold macroHeadOk
+  rw [macroParam_generic]
+  cases bv <;> simp [implTParam, macroBoundOk, entraitT]
 
 theorem detectDepMode_concrete_inv (mode : InputMode) : ∀ (fns : List TraitFn) (ty : Ty),
     detectDepMode mode fns = .ok (.concrete ty) → mode = .singleFn ∧ ∃ tf ∈ fns, tf.deps = .concrete ty
@@ -167,7 +169,7 @@ theorem T_C14 (v : Variant) (attr : Toks) (item : Item) (out : Out)
         rw [he]
         cases tf.originallyAsync <;> simp
       rw [hbodies]
-      simp [traitImplBlock, macroHeadOk, implTParam, macroBoundOk, entraitT]
+      simp [traitImplBlock, macroHead_implParams]
 
 
 /-- non-vacuity: the example module is statically dispatched and its impl passes the per-impl check -/
